@@ -402,6 +402,11 @@ macro_rules! impl_bytes_mut_utils {
         return Ok(core::ptr::NonNull::dangling());
       }
 
+      // an empty buffer has no memory behind it (the owned one does not even have an ARENA pointer to align).
+      if self.capacity() == 0 {
+        return Err(InsufficientBuffer::with_information(mem::size_of::<T>() as u64, 0));
+      }
+
       let align_offset = crate::align_offset::<T>(self.allocated.ptr_offset + self.len as u32);
 
       // `align_offset` saturates (to a misaligned `u32::MAX`) when the aligned offset does not fit in a `u32`.
